@@ -12,6 +12,7 @@ import (
 
 	"github.com/ethereum/go-ethereum/p2p/enode"
 	"github.com/zen-eth/shisui/portalwire"
+	utp "github.com/zen-eth/utp-go"
 	"pgregory.net/rapid"
 	"verifharness/gen"
 	"verifharness/pbt"
@@ -299,6 +300,7 @@ type c16In struct {
 	Offers   []inOffer
 	QueueCap int
 	Finish   string // "stop": Stop() the instance, "wait": let the 15 s accept time-outs run
+	Second   int    // offers of a second wave, issued while the granted transfers of the first are connected and have not sent their data yet
 }
 
 func genC16In(t *rapid.T) c16In {
@@ -319,7 +321,7 @@ func genC16In(t *rapid.T) c16In {
 		}
 	}
 	return c16In{Limit: rapid.SampledFrom([]int{-1, 1, 2, 3, 50}).Draw(t, "limit"), Offers: offers,
-		QueueCap: rapid.SampledFrom([]int{1, 50}).Draw(t, "qcap"), Finish: finish}
+		QueueCap: rapid.SampledFrom([]int{1, 50}).Draw(t, "qcap"), Finish: finish, Second: rapid.SampledFrom([]int{0, 1, 3, 6}).Draw(t, "second")}
 }
 
 func runC16In(p c16In, c *stats.Case) error {
@@ -400,25 +402,81 @@ func runC16In(p c16In, c *stats.Case) error {
 	if len(grants) == limit && limit > 0 && len(p.Offers) > limit {
 		c.NT("peak-equals-limit")
 	}
-	// play the outcomes concurrently
+	// play the outcomes concurrently: first every granted transfer that dials at all connects ...
+	type dialled struct {
+		conn   *utp.UtpStream
+		ctx    context.Context
+		cancel context.CancelFunc
+	}
+	conns := make([]*dialled, len(grants))
+	var wgd sync.WaitGroup
+	for gi, g := range grants {
+		if g.stream == "nodial" {
+			continue
+		}
+		wgd.Add(1)
+		go func(gi int, g granted) {
+			defer wgd.Done()
+			ctx, cancel := context.WithTimeout(context.Background(), 8*time.Second)
+			conn, err := a.Utp.DialWithCid(ctx, b.Node(), g.connID)
+			if err != nil {
+				cancel()
+				return
+			}
+			conns[gi] = &dialled{conn, ctx, cancel}
+		}(gi, g)
+	}
+	wgd.Wait()
+	// ... then, while all of them are still under way (connected and silent, or not yet dialled: the receiver waits
+	// 15 s for those), a second wave of offers arrives. Transfers in progress never exceed the limit: the second wave
+	// can only be granted what the first left over.
+	if p.Second > 0 && p.Finish == "stop" {
+		connected := 0
+		for _, d := range conns {
+			if d != nil {
+				connected++
+			}
+		}
+		time.Sleep(150 * time.Millisecond) // the receiver's accept calls have returned
+		second := 0
+		for i := 0; i < p.Second; i++ {
+			keys := [][]byte{append([]byte{0x00}, []byte(fmt.Sprintf("c16in-second-%d", i))...)}
+			reply, err := b.P.VerifHandleOffer(a.Node(), addrA, &portalwire.Offer{ContentKeys: keys})
+			if err != nil {
+				continue
+			}
+			connID, accepted, _, perr := parseAccept(reply, 1, 1)
+			if perr != nil {
+				return perr
+			}
+			if accepted[0] {
+				second++
+				grants = append(grants, granted{connID, [][]byte{[]byte("second wave")}, "nodial"})
+				conns = append(conns, nil)
+			}
+		}
+		if len(grants) > limit {
+			return fmt.Errorf("%d inbound transfers are in progress with a limit of %d: %d granted earlier (%d of them connected and waiting to send, none finished) and %d more granted to a second wave of %d offers",
+				len(grants), limit, len(grants)-second, connected, second, p.Second)
+		}
+		if connected > 0 && len(grants)-second == limit {
+			c.NT("second-wave-while-limit-transfers-are-in-their-data-phase")
+		}
+	}
 	var wg2 sync.WaitGroup
 	unhappy := false
-	for _, g := range grants {
+	for gi, g := range grants {
 		if g.stream != "valid" {
 			unhappy = true
 		}
 		wg2.Add(1)
-		go func(g granted) {
+		go func(gi int, g granted) {
 			defer wg2.Done()
-			if g.stream == "nodial" {
+			if g.stream == "nodial" || conns[gi] == nil {
 				return
 			}
-			ctx, cancel := context.WithTimeout(context.Background(), 6*time.Second)
-			defer cancel()
-			conn, err := a.Utp.DialWithCid(ctx, b.Node(), g.connID)
-			if err != nil {
-				return
-			}
+			conn, ctx := conns[gi].conn, conns[gi].ctx
+			defer conns[gi].cancel()
 			switch g.stream {
 			case "valid":
 				_, _ = conn.Write(ctx, portalwire.VerifEncodeContents(g.contents))
@@ -436,7 +494,7 @@ func runC16In(p c16In, c *stats.Case) error {
 				time.Sleep(300 * time.Millisecond) // connected, sends nothing, then closes
 			}
 			conn.Close()
-		}(g)
+		}(gi, g)
 	}
 	wg2.Wait()
 	if unhappy {
